@@ -99,14 +99,244 @@ def io_paths(tu, fname, count, extra=None, fd_slot=4, offset=None, errno_value=5
     return W.explore_entry(tu, fname, mk, lambda: std_table(2), errno_value=errno_value)
 
 
-def check_rw(chk, tu):
+# ---- concrete POSIX file model (second decision / fallback of the scatter-gather rules) ----------------------
+
+class ModelFile:
+    """a regular file: size, sparse content, position"""
+    def __init__(self, size, pos):
+        self.size = size
+        self.bytes = {i: (0xA0 + i) & 0xFF for i in range(size)}
+        self.pos = pos
+
+    def snapshot(self):
+        return (self.size, self.pos, tuple(sorted((k, v) for k, v in self.bytes.items() if v != 0 or k < self.size)))
+
+
+IO_IOVS, IO_RES, IO_BUF, IO_SIZE = 0x40, 0x20, 0x100, 0x400
+
+
+def io_guest_memory(lens):
+    data = [0xEE] * IO_SIZE
+    for k, ln in enumerate(lens):
+        buf = IO_BUF + 0x40 * k
+        for i, v in enumerate((buf, ln)):
+            for b in range(4):
+                data[IO_IOVS + 8 * k + 4 * i + b] = (v >> (8 * b)) & 0xFF
+        for i in range(ln):
+            data[buf + i] = (0x10 * (k + 1) + i) & 0xFF
+    return data
+
+
+def io_reference(kind, positional, lens, fsize, offset, pos):
+    """what readv/writev (preadv/pwritev) do on a regular file: -> (guest memory, file snapshot)"""
+    data = io_guest_memory(lens)
+    f = ModelFile(fsize, pos)
+    at = offset if positional else pos
+    total = 0
+    for k, ln in enumerate(lens):
+        buf = IO_BUF + 0x40 * k
+        for i in range(ln):
+            if kind == 'read':
+                if at + total >= f.size:
+                    break
+                data[buf + i] = f.bytes.get(at + total, 0)
+            else:
+                f.bytes[at + total] = data[buf + i]
+            total += 1
+        else:
+            continue
+        break
+    if kind == 'write' and total:
+        f.size = max(f.size, at + total)
+    if not positional:
+        f.pos = pos + total
+    for b in range(4):
+        data[IO_RES + b] = (total >> (8 * b)) & 0xFF
+    return data, f.snapshot()
+
+
+def concrete_io(tu, fname, kind, positional, lens, fsize, offset, pos, macros):
+    """the import evaluated on a concrete guest memory, iovec array and model file; -> discrepancy text or None"""
+    data = io_guest_memory(lens)
+    f = ModelFile(fsize, pos)
+    st2 = {}
+    EBADF, EINVAL = macros.get('EBADF', 9), macros.get('EINVAL', 22)
+    SEEK = {macros.get('SEEK_SET', 0): 'set', macros.get('SEEK_CUR', 1): 'cur', macros.get('SEEK_END', 2): 'end'}
+
+    def fail(code):
+        st2['errno']['v'] = code
+        return -1
+
+    def s64(v):
+        if not isinstance(v, int):
+            raise pe.PEError('symbolic file offset/length %r' % (v,))
+        v &= (1 << 64) - 1
+        return v - (1 << 64) if v >> 63 else v
+
+    def segs(iov, count):
+        out = []
+        for k in range(count):
+            e = iov.c[iov.k + k]
+            b, ln = e['iov_base'], e['iov_len']
+            if not (isinstance(b, Ptr) and b.c is data and isinstance(ln, int)):
+                raise pe.PEError('native segment %d is (%r, %r)' % (k, b, ln))
+            out.append((b.k, ln))
+        return out
+
+    def transfer(rd, fd, sg, at, move):
+        if fd != 10:
+            return fail(EBADF)
+        if at < 0:
+            return fail(EINVAL)
+        total = 0
+        for off, ln in sg:
+            if off < 0 or off + ln > IO_SIZE:
+                raise pe.PEError('native segment outside the guest memory')
+            stop = False
+            for i in range(ln):
+                if rd:
+                    if at + total >= f.size:
+                        stop = True
+                        break
+                    data[off + i] = f.bytes.get(at + total, 0)
+                else:
+                    f.bytes[at + total] = data[off + i]
+                total += 1
+            if stop:
+                break
+        if not rd and total:
+            f.size = max(f.size, at + total)
+        if move:
+            f.pos = at + total
+        return total
+
+    def lseek(interp, args, node):
+        fd, off, wh = args[0], s64(args[1]), SEEK.get(args[2])
+        if fd != 10:
+            return fail(EBADF)
+        base = {'set': 0, 'cur': f.pos, 'end': f.size}.get(wh)
+        if base is None or base + off < 0:
+            return fail(EINVAL)
+        f.pos = base + off
+        return f.pos
+
+    def one_buf(a):
+        if not (isinstance(a[1], Ptr) and a[1].c is data and isinstance(a[2], int)):
+            raise pe.PEError('native buffer is (%r, %r)' % (a[1], a[2]))
+        return [(a[1].k, a[2])]
+
+    def malloc(interp, args, node):
+        n = args[-1] if len(args) == 1 else args[0] * args[1]
+        if not isinstance(n, int) or n % 16:
+            raise pe.PEError('allocation of %r bytes (not an iovec array)' % (n,))
+        return Ptr([{'iov_base': 0, 'iov_len': 0} for _ in range(max(n // 16, 1))], 0)
+
+    def i32_load(interp, args, node):
+        a = args[1]
+        if not isinstance(a, int):
+            raise pe.PEError('symbolic guest address')
+        return sum(data[a + b] << (8 * b) for b in range(4))
+
+    def i32_store(interp, args, node):
+        a, v = args[1], args[2]
+        if not (isinstance(a, int) and isinstance(v, int)):
+            raise pe.PEError('symbolic guest store')
+        for b in range(4):
+            data[a + b] = (v >> (8 * b)) & 0xFF
+        return None
+    leafs = {
+        'readv': lambda i, a, n: transfer(True, a[0], segs(a[1], a[2]), f.pos, True),
+        'writev': lambda i, a, n: transfer(False, a[0], segs(a[1], a[2]), f.pos, True),
+        'preadv': lambda i, a, n: transfer(True, a[0], segs(a[1], a[2]), s64(a[3]), False),
+        'pwritev': lambda i, a, n: transfer(False, a[0], segs(a[1], a[2]), s64(a[3]), False),
+        'read': lambda i, a, n: transfer(True, a[0], one_buf(a), f.pos, True),
+        'write': lambda i, a, n: transfer(False, a[0], one_buf(a), f.pos, True),
+        'pread': lambda i, a, n: transfer(True, a[0], one_buf(a), s64(a[3]), False),
+        'pwrite': lambda i, a, n: transfer(False, a[0], one_buf(a), s64(a[3]), False),
+        'lseek': lseek, 'malloc': malloc, 'calloc': malloc, 'free': lambda i, a, n: None,
+        'i32_load': i32_load, 'i32_store': i32_store,
+    }
+    for k in list(leafs):
+        if k in ('pread', 'pwrite', 'preadv', 'pwritev', 'lseek'):
+            leafs[k + '64'] = leafs[k]
+    it = W.make_interp(tu, st2, leafs)
+
+    def setup():
+        st2.clear()
+        W.seed_globals(it, tu, st2, std_table(2), errno_value=0)
+        st2['memcell']['v']['data'] = Ptr(data, 0)
+        args = [unk('instance'), 4, IO_IOVS, len(lens)] + ([offset] if positional else []) + [IO_RES]
+        return (fname, args, {})
+    paths = it.explore(setup)
+    if len(paths) != 1:
+        raise pe.PEError('%d paths on concrete input' % len(paths))
+    p = paths[0]
+    wdata, wfile = io_reference(kind, positional, lens, fsize, offset, pos)
+    what = '%s of segments %r at %s on a %d-byte file positioned at %d' % (kind, lens, ('offset 0x%X' % offset) if positional else 'the file position', fsize, pos)
+    if p.aborted or p.ret != SUCCESS:
+        return '%s: returns %r (%s); POSIX %sv succeeds' % (what, p.ret, p.aborted or 'errno %r' % st2['errno']['v'], kind)
+    if data != wdata:
+        k = [i for i in range(IO_SIZE) if data[i] != wdata[i]][0]
+        if IO_RES <= k < IO_RES + 4:
+            return '%s: stores the count %d, POSIX transfers %d bytes' % (what, sum((data[IO_RES + b] if isinstance(data[IO_RES + b], int) else 0) << (8 * b) for b in range(4)),
+                                                                         sum(wdata[IO_RES + b] << (8 * b) for b in range(4)))
+        return '%s: guest byte 0x%X is %r, POSIX leaves 0x%02X there' % (what, k, data[k], wdata[k])
+    if f.snapshot() != wfile:
+        return '%s: the file ends up as (size, position) = (%d, %d), POSIX: (%d, %d)%s' % (
+            what, f.size, f.pos, wfile[0], wfile[1], '' if (f.size, f.pos) != wfile[:2] else ' - contents differ')
+    return None
+
+
+def io_cases(kind, positional, tier, full):
+    """(lens, file size, offset, position) family: 0..3 segments including zero-length ones, short transfers, offsets beyond 32 bits"""
+    import itertools
+    lens_set = (0, 2, 5) if not full else (0, 1, 3, 5)
+    shapes = [()]
+    for n in (1, 2, 3):
+        shapes += list(itertools.product(lens_set, repeat=n))
+    if not full:
+        shapes = [sh for sh in shapes if len(sh) < 3 or sh in ((0, 2, 5), (2, 0, 5), (5, 2, 0), (2, 5, 2), (0, 0, 2))]
+    out = []
+    for sh in shapes:
+        for fsize in ((0, 6) if not full else (0, 4, 9)):
+            for off in ((0, 3, (1 << 32) + 2) if positional else (0,)):
+                for pos in ((1,) if not full else (0, 3)):
+                    out.append((list(sh), fsize, off, pos))
+    return out
+
+
+def refute_io(tu, fname, imp, positional, macros, tier, full):
+    kind = 'write' if 'write' in imp else 'read'
+    n = 0
+    for lens, fsize, off, pos in io_cases(kind, positional, tier, full):
+        try:
+            bad = concrete_io(tu, fname, kind, positional, lens, fsize, off, pos, macros)
+        except (pe.PEError, IndexError, KeyError, TypeError) as e:
+            raise AnalysisBroken('%s on the concrete file model (%r): %s' % (imp, (lens, fsize, off, pos), e))
+        n += 1
+        if bad:
+            return bad, n
+    return None, n
+
+
+def check_rw(chk, tu, macros):
     eps = W.entry_points(tu)
     iovs, result = unk('iovs'), unk('result')
+    undecided = []
     for imp, native, positional in (('fd_write', 'writev', False), ('fd_read', 'readv', False),
                                     ('fd_pwrite', 'writev', True), ('fd_pread', 'readv', True)):
         for gen, f in sorted(eps[imp].items()):
             pts = W.param_types(tu, f)[1:]
             off = None
+            shape_probs = []
+
+            def shape(ok, rule, inst_, msg, site_):
+                # the recognised implementation shape (one vectored native call on an array filled in order); another shape is not a
+                # violation by itself - it is decided on the concrete file model below
+                if ok:
+                    chk.ok(rule, inst_)
+                else:
+                    shape_probs.append((rule, inst_, msg, site_))
             if positional:
                 off = unk('offset', pts[3])
             for count in ((0, 1, 3) if chk.tier == 'quick' else (0, 1, 2, 3, 4, 6)):
@@ -120,7 +350,7 @@ def check_rw(chk, tu):
                     want = []
                     for k in range(count):
                         want += [(32, 8 * k), (32, 8 * k + 4)]
-                    chk.expect(loads == want, 'R12.5', inst + ':iovec-walk',
+                    shape(loads == want, 'R12.5', inst + ':iovec-walk',
                                '%s reads the scatter/gather vector at (width, offset) %r; the witx layout is stride 8 with buf@0, '
                                'len@4, visited in ascending order: %r' % (imp, loads, want), site + ':iovec-layout')
                     # native call: same descriptor, same count
@@ -129,12 +359,12 @@ def check_rw(chk, tu):
                         # an empty vector may be answered without a native call (readv/writev with 0 segments transfer 0 bytes):
                         # the stored count must then be the constant 0
                         gst = [(a[0], offset_from(a[1], result), a[2]) for n, a, l in p.events if n == 'gstore']
-                        chk.expect(len(gst) == 1 and gst[0][0] == 32 and gst[0][1] == 0 and gst[0][2] == 0, 'R12.2', inst + ':result-count',
+                        shape(len(gst) == 1 and gst[0][0] == 32 and gst[0][1] == 0 and gst[0][2] == 0, 'R12.2', inst + ':result-count',
                                    '%s answers an empty vector without a native call and stores %r; expected the count 0 as one u32 at '
                                    'the result pointer' % (imp, gst), site + ':result')
                         continue
                     okcall = len(calls) == 1 and calls[0][0].lstrip('p').startswith(native[:-1]) and calls[0][1][0] == 10 and calls[0][1][2] == count
-                    chk.expect(okcall, 'R12.5', inst + ':native-call',
+                    shape(okcall, 'R12.5', inst + ':native-call',
                                '%s performs %r; expected one %s on the descriptor\'s native fd with all %d segments'
                                % (imp, [(c, a[0], a[2]) for c, a in calls], native, count), site + ':native-call')
                     # iovec array filled in order from the loaded (buf, len) pairs
@@ -169,18 +399,18 @@ def check_rw(chk, tu):
                         ll = [s for s in pe.sym_walk(ln) if s.op == 'gload']
                         seq_ok = len(bl) == 1 and len(ll) == 1 and offset_from(bl[0].args[1], iovs) == 8 * k and \
                             offset_from(ll[0].args[1], iovs) == 8 * k + 4 and any(s.op == 'unk' and s.args[0] == 'gdata' for s in pe.sym_walk(b))
-                    chk.expect(seq_ok, 'R12.5', inst + ':segments-in-order',
+                    shape(seq_ok, 'R12.5', inst + ':segments-in-order',
                                '%s does not build native segment k from guest (data + buf, len) of entry k: %r' % (imp, vals), site + ':segments')
                     gst = [(a[0], offset_from(a[1], result), a[2]) for n, a, l in p.events if n == 'gstore']
                     okres = len(gst) == 1 and gst[0][0] == 32 and gst[0][1] == 0 and \
                         any(s.op == 'call' and s.args[0] in ('writev', 'readv') for s in pe.sym_walk(gst[0][2]))
-                    chk.expect(okres, 'R12.2', inst + ':result-count',
+                    shape(okres, 'R12.2', inst + ':result-count',
                                '%s stores %r; expected the transferred byte count as one u32 at the result pointer' % (imp, gst), site + ':result')
                     if positional:
                         seeks = [a for n, a, l in p.events if n == 'extern:lseek']
                         ofs = [a for a in seeks if any(s == unk('offset') for s in pe.sym_walk(a[1]))]
                         full = bool(ofs) and all(_full64(a[1], unk('offset')) for a in ofs)
-                        chk.expect(full, 'R12.1', inst + ':offset-64bit',
+                        shape(full, 'R12.1', inst + ':offset-64bit',
                                    '%s seeks to %r: the 64-bit file offset is narrowed before it reaches the native call'
                                    % (imp, [a[1] for a in seeks]), site + ':offset-width')
                 for p in paths:
@@ -192,6 +422,20 @@ def check_rw(chk, tu):
                 for p in failed:
                     chk.expect(p.ret != SUCCESS, 'R12.6', inst + ':failure-reported[%s]' % p.cond_text()[:50],
                                '%s returns SUCCESS although a native call failed on path %s' % (imp, p.cond_text()), site + ':error-discipline')
+            # second decision, and the decision for an unrecognised shape: the import evaluated on a concrete guest memory and a model of a
+            # regular file against what POSIX readv/writev (preadv/pwritev) do - data, count, file contents and file position
+            bad, ncase = refute_io(tu, f['name'], imp, positional, macros, chk.tier, full=bool(shape_probs) or chk.tier == 'thorough')
+            inst = '%s/%s' % (gen, imp)
+            if bad:
+                chk.fail(shape_probs[0][0] if shape_probs else 'R12.5', inst + ':posix-file-model',
+                         '%s: %s%s' % (imp, bad, (' [implementation shape: %s]' % shape_probs[0][2][:200]) if shape_probs else ''),
+                         (shape_probs[0][3] if shape_probs else imp + ':transfer'))
+            elif shape_probs:
+                undecided.append('%s: %s (agrees with POSIX on %d concrete transfers, which does not decide all sequences)' % (inst, shape_probs[0][2][:300], ncase))
+            else:
+                chk.ok('R12.5', inst + ':posix-file-model', '%d concrete transfers equal POSIX %s' % (ncase, native))
+    if undecided and not chk.unlisted_violations():
+        raise AnalysisBroken('scatter/gather implementation of an unrecognised shape: ' + ' | '.join(undecided[:3]))
 
 
 def _full64(v, base):
@@ -260,7 +504,7 @@ def check_seek(chk, tu, macros):
                        'fd_tell calls lseek%r, expected lseek(fd, 0, SEEK_CUR)' % (tuple(seeks[0]) if seeks else (),), 'fd_tell')
 
 
-def check_errno_table(chk, tu, macros):
+def check_errno_table(chk, tu, macros, rule='R12.3'):
     f = tu.fn('wasiErrno')
     chk.fn('wasiErrno')
     by_val = {}
@@ -285,7 +529,7 @@ def check_errno_table(chk, tu, macros):
             if not handled:
                 chk.note('host %s (%d) is not in the errno table (reported as EINVAL)' % ('/'.join(names), v))
                 continue
-        chk.expect(p.ret in wants, 'R12.3', 'errno:%s' % '/'.join(names),
+        chk.expect(p.ret in wants, rule, 'errno:%s' % '/'.join(names),
                    'host errno %s (%d) is translated to WASI errno %r; the witx number of %s is %s'
                    % ('/'.join(names), v, p.ret, '/'.join(O.HOST_ERRNO[nm] for nm in names), sorted(wants)), 'wasiErrno:%s' % names[0])
     chk.require(n >= 30, 'only %d host errno values examined' % n)
@@ -554,7 +798,7 @@ def run(chk):
     chk.unit(tu)
     macros = W.host_macros(('E', 'SEEK_', 'O_'))
     check_signatures(chk, tu)
-    check_rw(chk, tu)
+    check_rw(chk, tu, macros)
     check_seek(chk, tu, macros)
     check_errno_table(chk, tu, macros)
     check_open_flags(chk, tu, macros)
